@@ -424,6 +424,27 @@ def effects_tie(ctx, pub):
         ctx.notes.append('Gen/Effects.lean not readable: %s' % e)
 
 
+def time_sweep(ctx):
+    """C05.b on many (npts, dt) pairs: `time` must have exactly npts entries and equal dt*arange(npts) whatever npts*dt rounds to"""
+    import eqsig
+    rng = ctx.rng
+    dts = [0.1, 0.01, 0.02, 0.005, 0.001, 0.05, 0.2, 0.025, 0.004, 1.0, 0.5, 0.3, 0.03, 0.07]
+    pairs = [(3, 0.1), (4091, 0.01), (2045, 0.02), (2, 0.1), (7, 0.3)]
+    for _ in range(400 if ctx.tier == 'quick' else 6000):
+        pairs.append((rng.randint(1, 6000), rng.choice(dts)))
+    bad = 0
+    for npts, dt in pairs:
+        for cls in (eqsig.Signal, eqsig.AccSignal):
+            s = cls(np.zeros(npts), dt)
+            ok, d = shape_ok(s)
+            if not ok:
+                bad += 1
+            ctx.oracle(CL_SHAPE, ok, {'class': cls.__name__, 'npts': npts, 'dt': dt, 'values': 'zeros(npts)'}, detail=d,
+                       facts={'operation': 'constructor', 'class': cls.__name__})
+    ctx.hist('time sweep over (npts, dt) pairs', len(pairs))
+    ctx.count_case(('time-sweep', len(pairs)), True, sample={'fn': 'Signal.time', 'pairs': len(pairs), 'first': pairs[:5]})
+
+
 def run(ctx):
     ctx._c05_report = make_report(ctx)
     rows = table_rows()
@@ -431,6 +452,7 @@ def run(ctx):
     if len(rows) < 30:
         raise RuntimeError('effect table %s lacks rows: %d' % (TABLE, len(rows)))
     ownership(ctx, rows)
+    time_sweep(ctx)
     cluster(ctx)
     pub = purity(ctx)
     effects_tie(ctx, pub)
